@@ -145,7 +145,7 @@ func plans() []plan {
 func TestCheck(t *testing.T) {
 	rec = mon.Open("C13")
 	defer rec.Close()
-	rec.Note("rule", "a case is one history of 2-8 goroutines x 1-3 keys driven in lock-step against one lock primitive (fifo.Mutex, fifo.Map, cmap.Mutex, lock.Context, lock.OuterCancel), with seeded parking of a caller at the verif hook points between the map look-up and the mutex operation; cmap additionally runs the two directed delete-and-release histories. An occupancy monitor shadows every critical section; FIFO grants are compared with arrival order; fifo.Map's entry count is read at idle points; cancellation and OuterCancel rules are judged from the recorded grants, cancellations and causes in virtual time. Non-trivial = at least one acquisition had to wait; distinct = distinct step list.")
+	rec.Note("rule", "a case is one history of 2-8 goroutines x 1-3 keys driven in lock-step against one lock primitive (fifo.Mutex, fifo.Map, cmap.Mutex, lock.Context, lock.OuterCancel), with seeded parking of a caller at the verif hook points between the map look-up and the mutex operation; cmap additionally runs the two directed delete-and-release histories. An occupancy monitor shadows every critical section; FIFO grants are compared with arrival order; fifo.Map's entry count is read at idle points; cancellation and OuterCancel rules are judged from the recorded grants, cancellations and causes in virtual time. (stress) real contention without lock-step, judged by the occupancy monitor and by bubble deadlock / goroutine leak detection. (outer-bigtree) OuterCancel with 24000 contexts derived from a reader's context, scanned with Err() while the cancellation walk is in progress: no derived context reports an end whose cause is not yet the documented one. (outer-after-early-grant) a writer whose wait ended early because the readers released of their own accord: a reader admitted afterwards is not cancelled when that writer's grace period would have run out, and a second writer gets a full grace period of its own. (outer-ctx-ends-at-grant) caller contexts whose Err() ends them at the moment the lock looks at them: an error means no hold is left behind, no error means a real hold. Non-trivial = at least one acquisition had to wait; distinct = distinct step list.")
 	rec.Note("require", []string{"fifo.order_checked", "fifomap.idle_len_checked", "fifomap.park.map.lock.counted", "fifomap.park.map.unlock.counted", "cmap.park.lock.lookedup", "cmap.park.rlock.lookedup", "cmap.delete_unlock_safe", "cmap.directed.waiter_confirmed", "context.cancelled_while_waiting", "context.error_holds_nothing", "outer.writer_cancelled_readers_at_grace", "outer.reader_released_before_grace", "outer.reader_blocked_by_writer", "outer.rlock_error_holds_nothing_checked", "outer.free_lock_granted_at_once", "outer.grace_kept_for_holder_whose_parent_ended", "keys.zero_value_key_used", "outer.release_after_shutdown_returned", "outer.writers_exclusive_after_shutdown", "waits", "stress.acquisitions", "outer.bigtree.writer_granted_with_every_derived_context_cancelled", "outer.reader_after_early_grant_kept_until_next_writers_grace"})
 	ps := plans()
 	rec.Planned(len(ps))
